@@ -644,6 +644,9 @@ func Run(t *testing.T, sc *Scenario, emit func(evs []vh.Event, stats map[string]
 					r.rmu.Unlock()
 				}
 			}
+			if name == "srv.barrier.pass" { // a batch got through the notification barrier: pins the contract's silent Dispatch step
+				rec.Log("BarrierPass")
+			}
 			switch name { // built-in handlers have no harness wrapper: observe them through the hook
 			case "srv.hstart", "srv.hexit":
 				if len(args) > 1 {
